@@ -651,7 +651,7 @@ func (r *run) runStream() {
 			}
 		}
 		var want []Item
-		if roundtrip {
+		if roundtrip && !(over != "" && i == overAt) { // a batch that is going to be refused is never compared
 			want = b.canon()
 		}
 		var before []byte
